@@ -86,7 +86,7 @@ static int       bufr_rd_section2 ( bufr_read_callback readcb,
                                 void *cd, BUFR_Message * );
 static int       bufr_rd_section3 ( bufr_read_callback readcb,
                                 void *cd, BUFR_Message * );
-static uint64_t  bufr_rd_section4 ( bufr_read_callback readcb,
+static int64_t  bufr_rd_section4 ( bufr_read_callback readcb,
                                 void *cd, BUFR_Message * );
 static int   bufr_rd_section5 ( bufr_read_callback readcb, void *cd );
 
@@ -2092,7 +2092,7 @@ static int bufr_rd_section3(bufr_read_callback readcb, void *cd,
  * @author Vanh Souvanlasy
  * @ingroup internal
  */
-static uint64_t bufr_rd_section4(bufr_read_callback readcb, void *cd,
+static int64_t bufr_rd_section4(bufr_read_callback readcb, void *cd,
                             BUFR_Message *bufr)
    {
    int64_t        len;
